@@ -410,12 +410,22 @@ class FunctionCheck:
             it.base_facts = self.sc.pre_hyps(v)
             it.rng_feed = [v[n] for n in self.rng_inputs]
             fn, args, kwargs = self.sc.build(v)
+
+            def label(x, name, depth=0):
+                if isinstance(x, A):
+                    if x.origin is None:
+                        x.origin = name
+                elif depth < 3 and isinstance(x, (list, tuple)):
+                    for j, y in enumerate(x):
+                        label(y, "%s[%d]" % (name, j), depth + 1)
+                elif depth < 3 and isinstance(x, dict):
+                    for j, y in x.items():
+                        label(y, "%s[%r]" % (name, j), depth + 1)
+
             for i, a in enumerate(args):
-                if isinstance(a, A) and a.origin is None:
-                    a.origin = "arg%d" % i
+                label(a, "arg%d" % i)
             for k, a in kwargs.items():
-                if isinstance(a, A) and a.origin is None:
-                    a.origin = "kw:%s" % k
+                label(a, "kw:%s" % k)
             objs = [getattr(fn, "__self__", None)] + [a for a in args if hasattr(a, "__dict__") and not isinstance(a, (A, S))]
             for so in objs:
                 if so is not None and hasattr(so, "__dict__") and not isinstance(so, type):
@@ -677,7 +687,22 @@ class FunctionCheck:
         rng = np.random.default_rng(self.ck.seed)
         v = self.valid_native(rng, 4)
         fn, args, kwargs = self.sc.build(v)
-        named = [("arg%d" % i, a) for i, a in enumerate(args)] + [("kw:%s" % k, a) for k, a in kwargs.items()]
+        named = []
+
+        def collect(x, name, depth=0):
+            if isinstance(x, np.ndarray):
+                named.append((name, x))
+            elif depth < 3 and isinstance(x, (list, tuple)):
+                for j, y in enumerate(x):
+                    collect(y, "%s[%d]" % (name, j), depth + 1)
+            elif depth < 3 and isinstance(x, dict):
+                for j, y in x.items():
+                    collect(y, "%s[%r]" % (name, j), depth + 1)
+
+        for i, a in enumerate(args):
+            collect(a, "arg%d" % i)
+        for k, a in kwargs.items():
+            collect(a, "kw:%s" % k)
         if self_state:
             named = []
             objs = [getattr(fn, "__self__", None)] + [a for a in args if hasattr(a, "__dict__") and not isinstance(a, np.ndarray)]
